@@ -1267,14 +1267,14 @@ class MindsDBParser(Parser):
         query = p.query
         query.parentheses = True
         if hasattr(p, 'id'):
-            query.alias = Identifier(parts=[p.id])
+            query.alias = Identifier.from_path_str(p.id)
         if hasattr(p, 'column_list'):
             if not isinstance(query, Select):
                 raise ParsingException('Column names after the alias are supported only for a SELECT sub-query')
             for i, col in enumerate(p.column_list):
                 if i >= len(query.targets):
                     break
-                query.targets[i].alias = Identifier(parts=[col])
+                query.targets[i].alias = Identifier.from_path_str(col)
         return query
 
     # keywords for table
